@@ -1656,9 +1656,12 @@ fn tagfilter(literal: &[u8]) -> bool {
         i += 1;
     }
 
-    let lc = unsafe { String::from_utf8_unchecked(literal[i..].to_vec()) }.to_lowercase();
+    // Compare in place, ASCII case-insensitively (tag names are ASCII): no
+    // copy of the tail per '<', and no read past the end when the literal
+    // stops right after the tag name.
+    let rest = &literal[i..];
     for t in TAGFILTER_BLACKLIST.iter() {
-        if lc.starts_with(t) {
+        if rest.len() > t.len() && rest[..t.len()].eq_ignore_ascii_case(t.as_bytes()) {
             let j = i + t.len();
             return isspace(literal[j])
                 || literal[j] == b'>'
